@@ -40,8 +40,8 @@ theorem step_attLog_prefix (s : Inst) (op : Op) : ∃ new, (step s op).1.attLog 
   | att c a d f => exact signAtt_attLog_prefix s c a d f false
   | atts c items f => exact signAtts_attLog_prefix s c items f []
   | prop c a d f => exact ⟨[], by simp [step, signProp_attLog]⟩
-  | sign c ip a d => exact ⟨[], by simp [step, (signGeneric_frame s c ip a d false).2.1]⟩
-  | msign c ip items => exact ⟨[], by simp [step, (multisign_frame s c ip items []).2.1]⟩
+  | sign c ip a d => exact ⟨[], by simp [step, (signGeneric_frame s c ip a d false false).2.1]⟩
+  | msign c ip items => exact ⟨[], by simp [step, (multisign_frame s c ip items [] false).2.1]⟩
   | restart => exact ⟨[], by simp [step]⟩
   | importRec k r => exact ⟨[], by simp [step]⟩
   | importCmd gvr f => exact ⟨[], by simp [(step_importCmd_frame s gvr f).2.1]⟩
@@ -82,8 +82,8 @@ theorem step_propLog_prefix (s : Inst) (op : Op) : ∃ new, (step s op).1.propLo
   | att c a d f => exact ⟨[], by simp [step, signAtt_propLog]⟩
   | atts c items f => exact ⟨[], by simp [step, signAtts_propLog]⟩
   | prop c a d f => exact signProp_propLog_prefix s c a d f false
-  | sign c ip a d => exact ⟨[], by simp [step, (signGeneric_frame s c ip a d false).2.2]⟩
-  | msign c ip items => exact ⟨[], by simp [step, (multisign_frame s c ip items []).2.2]⟩
+  | sign c ip a d => exact ⟨[], by simp [step, (signGeneric_frame s c ip a d false false).2.2]⟩
+  | msign c ip items => exact ⟨[], by simp [step, (multisign_frame s c ip items [] false).2.2]⟩
   | restart => exact ⟨[], by simp [step]⟩
   | importRec k r => exact ⟨[], by simp [step]⟩
   | importCmd gvr f => exact ⟨[], by simp [(step_importCmd_frame s gvr f).2.2.1]⟩
